@@ -104,18 +104,18 @@ func (op Cir) Disassembler(arch *Arch, instr string) (string, error) {
 
 // The simulation does nothing
 func (op Cir) Simulate(vm *VM, instr string) error {
+	// The instruction has a single operand: the register that is shifted in place
 	reg_bits := vm.Mach.R
-	regdest := get_id(instr[:reg_bits])
-	regsrc := get_id(instr[reg_bits : reg_bits*2])
+	reg := get_id(instr[:reg_bits])
 	switch vm.Mach.Rsize {
 	case 8:
-		vm.Registers[regdest] = vm.Registers[regsrc].(uint8) >> 1
+		vm.Registers[reg] = vm.Registers[reg].(uint8) >> 1
 	case 16:
-		vm.Registers[regdest] = vm.Registers[regsrc].(uint16) >> 1
+		vm.Registers[reg] = vm.Registers[reg].(uint16) >> 1
 	case 32:
-		vm.Registers[regdest] = vm.Registers[regsrc].(uint32) >> 1
+		vm.Registers[reg] = vm.Registers[reg].(uint32) >> 1
 	case 64:
-		vm.Registers[regdest] = vm.Registers[regsrc].(uint64) >> 1
+		vm.Registers[reg] = vm.Registers[reg].(uint64) >> 1
 	default:
 		return errors.New("Wrong register size")
 	}
